@@ -25,7 +25,7 @@ func TestMain(m *testing.M) {
 	vh.Assume("'promptly' and 'bounded' are wall-clock bounds with slack (1 s / 5 s; a correct tree needs microseconds); schedules are sampled; one consumer per channel apart from the deliberately blocked one")
 	vh.Rule("also: the context (own or the connection's) is cancelled from inside the transport's k-th Write of a 2..8 packet request: no further write reaches the transport and the error wraps context.Canceled; Conn.Close after a logical channel with a lower id was closed on its own (gap in the ids); with overlapping Close calls, the closed condition is checked the moment any of them returns")
 	vh.Rule("also: after every send with an already cancelled context the next request (live context) is sent: the transport sees that request and nothing of the cancelled one; Channel.Reset() called before cancel / Close at any fill level returns at once")
-	vh.Rule("also: caller contexts made with WithCancelCause / WithTimeoutCause (the error still wraps ctx.Err()); the main channel closed by the application before Conn.Close; parked requests of 1..3 packets")
+	vh.Rule("also: caller contexts made with WithCancelCause / WithTimeoutCause (the error still wraps ctx.Err()); the main channel closed by the application before Conn.Close; parked requests of 1..3 packets, on logical channels and on the main channel (the scripted peer answers a logout that arrives appended to the other goroutine's message)")
 	vh.Main(m, "C13")
 }
 
